@@ -823,6 +823,10 @@ static void *watchdog_main(void *arg)
 
 void vf_watch_begin(const char *ctx, unsigned idle_ok_ms) { vf_watch_begin_n(ctx, idle_ok_ms, 20); }
 
+/* Several threads of one harness may each watch a phase of their own (h_source cancel drivers): the watchdog stays armed
+ * while any of them is inside a begin/end pair (a global flag let the last driver that finished disarm it under a driver
+ * that was stuck in a library call). begin is idempotent per thread, so a context can be renamed without an end. */
+static __thread int tl_wd_armed;
 void vf_watch_begin_n(const char *ctx, unsigned idle_ok_ms, int samples)
 {
 	pthread_mutex_lock(&g_wd.mtx);
@@ -831,12 +835,12 @@ void vf_watch_begin_n(const char *ctx, unsigned idle_ok_ms, int samples)
 	g_wd.samples = samples;
 	pthread_mutex_unlock(&g_wd.mtx);
 	atomic_fetch_add(&g_wd.epoch, 1);
-	atomic_store(&g_wd.armed, 1);
+	if (!tl_wd_armed) { tl_wd_armed = 1; atomic_fetch_add(&g_wd.armed, 1); }
 }
 
 void vf_watch_end(void)
 {
-	atomic_store(&g_wd.armed, 0);
+	if (tl_wd_armed) { tl_wd_armed = 0; atomic_fetch_sub(&g_wd.armed, 1); }
 	atomic_fetch_add(&g_wd.epoch, 1);
 }
 
